@@ -2169,6 +2169,111 @@ fn run_aggregate(case: &Value) -> Value {
            "tables": {"names": names, "criteria": crits, "urls": urls}})
 }
 
+
+// ---------------------------------------------------------------------------
+// suggest kind (C17): compute_suggest + compute_suggested_criteria on a failing store
+
+fn run_suggest(case: &Value) -> Value {
+    let metadata = build_metadata(&case["graph"]);
+    let cfg = mock_cfg(&metadata);
+    let store = match acquire(case, &cfg) {
+        Acquired::Store(s) => s,
+        Acquired::Refused(e) => {
+            return json!({"status": "refused", "error_kind": error_kind(&e), "error": e})
+        }
+    };
+    let mut extra_versions = Vec::new();
+    if let Some(reg) = case["registry"]["packages"].as_object() {
+        for (_, versions) in reg {
+            for v in versions.as_array().unwrap() {
+                extra_versions.push(VetVersion {
+                    semver: v["version"].as_str().unwrap().parse().unwrap(),
+                    git_rev: None,
+                });
+            }
+        }
+    }
+    let it = make_interner(&metadata, &store, &extra_versions);
+    let graph = resolver::DepGraph::new(&metadata, None, Some(&store.config.policy));
+    let network = build_network(case);
+    let use_network = case["suggest_network"].as_bool().unwrap_or(true);
+    let model_in = json!({
+        "graph": m_depgraph_in(&it, &metadata, &store, &graph),
+        "store": m_store(&it, &store),
+        // major version of every universe version (mock diffstat = |to.major^2 - from.major^2|)
+        "majors": it.versions.iter().map(|v| json!(v.semver.major)).collect::<Vec<_>>(),
+        "git": it.versions.iter().map(|v| json!(v.git_rev.is_some())).collect::<Vec<_>>(),
+        // per package name: the versions crates.io knows (None = index unavailable => all have sources)
+        "known": it.names.iter().map(|n| {
+            if !use_network { return Value::Null; }
+            match case["registry"]["packages"][n].as_array() {
+                Some(l) => some(Value::Array(l.iter().map(|v| json!(it.ver(&VetVersion{
+                    semver: v["version"].as_str().unwrap().parse().unwrap(), git_rev: None}))).collect())),
+                None => Value::Null,
+            }
+        }).collect::<Vec<_>>(),
+    });
+    let tables = json!({
+        "names": it.names,
+        "versions": it.versions.iter().map(|v| v.to_string()).collect::<Vec<_>>(),
+        "criteria": it.criteria,
+        "nodes": graph.nodes.iter().map(|n| format!("{}:{}", n.name, n.version)).collect::<Vec<_>>(),
+    });
+    let run = catch_unwind(AssertUnwindSafe(|| {
+        let report = resolver::resolve(&metadata, None, &store);
+        let mapper = CriteriaMapper::new(&store.audits.criteria);
+        let reqs: Vec<u128> = resolver::verif_resolve_requirements(&graph, &store.config.policy, &mapper)
+            .iter()
+            .map(bits)
+            .collect();
+        let rep = s_report(&it, &store, &report, &reqs);
+        let suggest = report
+            .compute_suggest(&cfg, &store, if use_network { Some(&network) } else { None })
+            .map_err(|e| format!("{e:?}"));
+        let sug = match &suggest {
+            Ok(Some(s)) => sp(
+                "suggest",
+                s.suggestions
+                    .iter()
+                    .map(|i| {
+                        sp(
+                            "s",
+                            vec![
+                                i.package.to_string(),
+                                it.sver(i.suggested_diff.from.as_ref()),
+                                it.ver(&i.suggested_diff.to).to_string(),
+                                bits(&i.suggested_criteria).to_string(),
+                                i.suggested_diff.diffstat.count().to_string(),
+                            ],
+                        )
+                    })
+                    .collect(),
+            ),
+            Ok(None) => "(nosuggest)".to_owned(),
+            Err(e) => format!("(suggesterror {})", error_kind(e)),
+        };
+        // criteria certify would pre-select for the requested deltas
+        let mut guesses = Vec::new();
+        for q in case["guess"].as_array().into_iter().flatten() {
+            let from: Option<VetVersion> = q["from"].as_str().map(|s| s.parse().unwrap());
+            let to: VetVersion = q["to"].as_str().unwrap().parse().unwrap();
+            let names = report.compute_suggested_criteria(q["package"].as_str().unwrap(), from.as_ref(), &to);
+            let set = mapper.criteria_from_list(&names);
+            guesses.push(json!({"package": q["package"], "from": q["from"], "to": q["to"],
+                                "names": names, "bits": bits(&set).to_string()}));
+        }
+        // JSON suggest output as the user sees it
+        let out = super::BasicTestOutput::new();
+        let _ = report.print_json(&out.clone().as_dyn(), suggest.as_ref().ok().and_then(|s| s.as_ref()));
+        (rep, sug, guesses, serde_json::from_str::<Value>(&out.to_string()).unwrap_or(Value::Null))
+    }));
+    match run {
+        Ok((rep, sug, guesses, js)) => json!({"status": "ok", "model_input": model_in, "tables": tables,
+            "obs": sp("both", vec![rep, sug]), "extra": {"guesses": guesses, "json": js}}),
+        Err(p) => json!({"status": "panic", "model_input": model_in, "tables": tables, "panic": panic_message(&p)}),
+    }
+}
+
 fn panic_message(p: &Box<dyn std::any::Any + Send>) -> String {
     if let Some(s) = p.downcast_ref::<String>() {
         s.clone()
@@ -2189,6 +2294,7 @@ fn run_case(case: &Value) -> Value {
         "import" => run_import(case),
         "audit_as" => run_audit_as(case),
         "aggregate" => run_aggregate(case),
+        "suggest" => run_suggest(case),
         other => json!({"status": "harness_error", "error": format!("unknown kind {other}")}),
     }));
     let mut v = match r {
